@@ -583,6 +583,59 @@ func reconcileRule() string {
 		die("doKillTasks no longer sends KILL to the ACTIVE tasks of the set")
 	}
 
+	// KillTasks(ids): does it take anything out of the roster that is not in its kill list?  The kill
+	// list is a local defined as `<roster>.filtered(<the named filter>)`; every other local that holds
+	// roster tasks (e.g. `unkillable := roster.filtered(func..{ return !filter(t) })`: ALL the other
+	// tasks of the roster) must not reach a roster write (updateTasks) made by KillTasks itself.
+	killRemovesUnlisted := false
+	if kt := rcMethod(pkg, "Manager", "KillTasks"); kt == nil {
+		die("Manager.KillTasks not found")
+	} else {
+		listed, other := map[string]bool{}, map[string]bool{}
+		ast.Inspect(kt.Body, func(x ast.Node) bool {
+			as, ok := x.(*ast.AssignStmt)
+			if !ok || len(as.Lhs) != len(as.Rhs) {
+				return true
+			}
+			for i, l := range as.Lhs {
+				id, ok := l.(*ast.Ident)
+				c, ok2 := as.Rhs[i].(*ast.CallExpr)
+				if !ok || !ok2 {
+					continue
+				}
+				sel, ok := c.Fun.(*ast.SelectorExpr)
+				if !ok || !(sel.Sel.Name == "filtered" || sel.Sel.Name == "Filtered") || len(c.Args) != 1 {
+					continue
+				}
+				if _, named := c.Args[0].(*ast.Ident); named && strings.Contains(rcSrc(sel.X), "roster") {
+					listed[id.Name] = true
+				} else {
+					other[id.Name] = true
+				}
+			}
+			return true
+		})
+		ast.Inspect(kt.Body, func(x ast.Node) bool {
+			c, ok := x.(*ast.CallExpr)
+			if !ok {
+				return true
+			}
+			sel, ok := c.Fun.(*ast.SelectorExpr)
+			if !ok || !(sel.Sel.Name == "updateTasks" || sel.Sel.Name == "append") || !strings.Contains(rcSrc(sel.X), "roster") {
+				return true
+			}
+			for _, a := range c.Args {
+				ast.Inspect(a, func(y ast.Node) bool {
+					if id, ok := y.(*ast.Ident); ok && other[id.Name] {
+						killRemovesUnlisted = true
+					}
+					return true
+				})
+			}
+			return true
+		})
+	}
+
 	// updateTaskStatus: which Mesos states make a roster task ACTIVE / INACTIVE (the status a task of
 	// the roster has has no say in the reconciliation rule: the model spares every roster task)
 	us := updateFn
@@ -709,6 +762,8 @@ func reconcileRule() string {
 	fmt.Fprintf(&b, "Definition reconcile_every_subscribed : bool := %v.\n", everySubscribed)
 	b.WriteString("(* updateTaskStatus: is the refresh of the agent id / executor id of the roster task done only when\n   the status carries the field (a reconciliation answer need not)? *)\n")
 	fmt.Fprintf(&b, "Definition status_refresh_guarded : bool := %v.\n", refreshGuarded)
+	b.WriteString("(* KillTasks(ids): does a roster write of KillTasks itself involve roster tasks that are not in its\n   kill list? *)\n")
+	fmt.Fprintf(&b, "Definition killtasks_removes_unlisted : bool := %v.\n", killRemovesUnlisted)
 	b.WriteString("(* doKillTasks (KillTasks, Cleanup): do the tasks of the set that are not ACTIVE get a KILL call too? *)\n")
 	fmt.Fprintf(&b, "Definition kill_inactive : bool := %v.\n", killInactive)
 	b.WriteString("(* the states in which Mesos considers a task alive (mesos.proto: non-terminal, reachable) *)\n")
